@@ -336,9 +336,16 @@ def _check_case(seed, acc, rng, topo, rules):
                               dict(w, device=dname, error=r[2]))
                 return w
     # ---- order independence ------------------------------------------------------------------------------
-    perms = list(itertools.permutations(base_order))
-    if len(perms) > 24:
-        perms = [tuple(base_order)] + rng.sample(perms, 23)
+    if n <= 4:
+        perms = list(itertools.permutations(base_order))
+    else:
+        perms, seen_p = [tuple(base_order)], {tuple(base_order)}
+        while len(perms) < 24:
+            p_ = base_order[:]
+            rng.shuffle(p_)
+            if tuple(p_) not in seen_p:
+                seen_p.add(tuple(p_))
+                perms.append(tuple(p_))
     for perm in perms[1:]:
         res = run_all(topo, rules, list(perm))
         acc.count("executions", len(topo["devices"]))
